@@ -83,11 +83,28 @@ fn run_v<V: VringT<GM<()>> + Clone + Send + Sync + 'static>(sim: &Sim, cfg: &Run
         st.step_cap = 6000;
     }
     let space = sweep_configs();
+    let low_mask = |n: usize| if n >= 64 { u64::MAX } else { (1u64 << n) - 1 };
     let (adapter, nq, masks, order, listeners, sweep_key) = sim.with_w(|t| {
         let adapter = if t.chance(1, 2) { Adapter::Mutex } else { Adapter::RwLock };
         let (nq, masks, key) = if (cfg.index as usize) < space.len() {
             let (n, m) = space[cfg.index as usize].clone();
             (n, m, Some(cfg.index))
+        } else if t.chance(1, 12) {
+            // the width of the mask type: 62..=64 queues, masks that use the top bits
+            let n = *t.pick(&[62usize, 63, 64, 64]);
+            let k = t.range(1, 3) as usize;
+            let m: Vec<u64> = (0..k)
+                .map(|_| match t.draw(7) {
+                    0 => u64::MAX,
+                    1 => 1u64 << 63,
+                    2 => 0xffff_ffff_0000_0000,
+                    3 => 0x0000_0000_ffff_ffff,
+                    4 => 0xaaaa_aaaa_aaaa_aaaa,
+                    5 => 0x5555_5555_5555_5555,
+                    _ => t.raw() | 1u64 << 63,
+                })
+                .collect();
+            (n, m, None)
         } else {
             let n = t.range(1, 6) as usize;
             let k = t.range(1, 3) as usize;
@@ -166,10 +183,17 @@ fn run_v<V: VringT<GM<()>> + Clone + Send + Sync + 'static>(sim: &Sim, cfg: &Run
     let offered = vmm.fe.get_features().expect("get_features");
     // without PROTOCOL_FEATURES every ring is enabled by SET_FEATURES
     vmm.fe.set_features(offered & !crate::spec::VHOST_USER_F_PROTOCOL_FEATURES).expect("set_features");
-    let size_of = |q: usize| 2u16 << q;
+    if nq > 8 {
+        sim.probe("queue_count_at_mask_width");
+        sim.st().step_cap = 120_000;
+    }
+    // a queue is recognised inside handle_event by its size and its next-available index
+    let size_of = |q: usize| 2u16 << (q % 7);
+    let base_of = |q: usize| 100 + q as u16;
     let mut kickfds = Vec::new();
     for q in 0..nq {
         vmm.fe.set_vring_num(q, size_of(q)).expect("set_vring_num");
+        vmm.fe.set_vring_base(q, base_of(q)).expect("set_vring_base");
         let fd = EventFd::new(libc::EFD_NONBLOCK).expect("eventfd");
         vmm.fe.set_vring_kick(q, &fd).expect("set_vring_kick");
         kickfds.push(fd);
@@ -210,7 +234,7 @@ fn run_v<V: VringT<GM<()>> + Clone + Send + Sync + 'static>(sim: &Sim, cfg: &Run
     let disp: Vec<Dispatch> = log.lock().unwrap().dispatches.clone();
     // queue events
     for q in 0..nq {
-        let hits: Vec<&Dispatch> = disp[..seen_q].iter().filter(|d| d.ring.as_ref().map(|r| r.size == size_of(q)).unwrap_or(false)).collect();
+        let hits: Vec<&Dispatch> = disp[..seen_q].iter().filter(|d| d.ring.as_ref().map(|r| r.size == size_of(q) && r.next_avail == base_of(q)).unwrap_or(false)).collect();
         match owner_of(&masks, q) {
             None => {
                 if !hits.is_empty() {
@@ -225,7 +249,7 @@ fn run_v<V: VringT<GM<()>> + Clone + Send + Sync + 'static>(sim: &Sim, cfg: &Run
                         format!("queue {q} (size {}) was kicked but no handle_event saw it; dispatches: {:?}", size_of(q), &disp[..seen_q]),
                     );
                 }
-                let nv = (masks[t] & ((1u64 << nq) - 1)).count_ones() as usize;
+                let nv = (masks[t] & low_mask(nq)).count_ones() as usize;
                 for d in hits {
                     if d.thread_id != t || d.device_event != rank || d.nvrings != nv {
                         viol(
